@@ -6,6 +6,28 @@ VERIF = os.path.dirname(HERE)
 ALL = ["C%02d" % i for i in range(1, 19)]
 
 CLAIMS = {
+    "C05": dict(
+        text=("Rocq proof over the model of the ZID write-back: for items whose words are separated by single spaces the "
+              "rewritten first line is 'prefix + ZID + rest' (after kind, after kind+priority, in place of a leading long "
+              "date), the body the index stores equals the rest of the rewritten line, and _update_zo_file changes only the "
+              "listed first lines (length and all other lines preserved); irregular spacing is REFUTED (known finding). "
+              "Allocation order uses the proved ZID model (C07). On every run: `db create` on generated directories, files "
+              "and next_ids.json byte-for-byte against the model, and on the implementation alone: all notes carry ZIDs, "
+              "recompiled = indexed on every field incl. section path and block, only-ZID diffs, repeated create/reindex change nothing."),
+        note=("PARTIAL: agreement index/files is differential (real compiler, real repository). SQL storage is not modelled. "
+              "Dates restricted to 2000-2099."),
+        technique="Rocq proof (line-rewriting lemmas via split/join round trip) + byte-exact correspondence + recompile-vs-index spec check",
+        design="§5 C05"),
+    "C11": dict(
+        text=("Rocq proof over the model of _check_for_modified_notes / _add_or_update_modify_date: a note is stamped IFF it "
+              "had that ZID in the previous index state, its body or todo state differs, and it is not dated today; a note "
+              "dated today is never re-stamped (idempotence), an unchanged note never; the date is inserted or replaces a "
+              "six-digit word in front of the ZID; all other lines are untouched; the heuristic about the modify-date word is "
+              "REFUTED twice (known finding). On every run: multi-day edit histories through the real `db reindex`, stamp "
+              "decisions against the model, file lines, index vs recompiled files, immediate re-run."),
+        note=("PARTIAL: the previous index state and compilation are the implementation's; SQL storage not modelled."),
+        technique="Rocq proof (stamping iff, idempotence, line lemmas, refutation) + multi-day history correspondence and spec check",
+        design="§5 C11"),
     "C03": dict(
         text=("Rocq proof relating the model of the generated SQL (LIKE with/without ESCAPE, casts, NOT IN, OR/AND "
               "composition, evaluated over the raw index rows as SQLite does) to the meaning the property gives, atom by "
